@@ -413,6 +413,31 @@ def reader_markers(fn):
             seqs, opaque = sequences(fn, tgt, region, "r", bl, fail_blocks=eb)
             best[int(v)] = (seqs, opaque)
         break
+    if best:
+        return best
+    # `if marker == 0 { .. } if marker != 1 { return Err } ..` chains: one two-way test per value
+    for (b, i), st in fn.iter_locs():
+        if st[0] != "a" or st[2][0] != "bin" or st[2][1] not in ("Eq", "Ne") or len(st[1]) != 1:
+            continue
+        for x, y in ((st[2][2], st[2][3]), (st[2][3], st[2][2])):
+            k = op_const(y)
+            if k is None or not isinstance(k[0], int) or op_local(x) not in fw or fn.ty(op_local(x)) != "u8":
+                continue
+            for sb in fn.blocks():
+                t = fn.term(sb)
+                if t[0] != "sw" or op_local(t[1]) != st[1][0]:
+                    continue
+                ev = fn.switch_edge_values(sb)
+                explicit = [int(v) for v, _ in t[2]]
+                want = 1 if st[2][1] == "Eq" else 0
+                for tgt, vals in ev.items():
+                    if want in vals or ("otherwise" in vals and want not in explicit):
+                        allt = set(fn.succ(sb))
+                        region = arm_region(fn, sb, tgt, allt) - eb
+                        if tgt not in region or int(k[0]) in best:
+                            continue
+                        seqs, opaque = sequences(fn, tgt, region, "r", bl, fail_blocks=eb)
+                        best[int(k[0])] = (seqs, opaque)
     return best
 
 
